@@ -127,6 +127,8 @@ struct Interp<'a> {
     /// serial numbers are assigned in *print* order; statements in mixin/function bodies get theirs at definition
     serials: HashMap<*const S, u32>,
     steps: u32,
+    /// the global counter of each @while statement
+    wcount: HashMap<*const S, i64>,
 }
 
 fn number(c: &Case) -> HashMap<*const S, u32> {
@@ -235,9 +237,17 @@ impl<'a> Interp<'a> {
                     }
                 }
                 S::While { n, body } => {
+                    // as rendered: the counter is one global per @while statement, so a re-entrant run of the same
+                    // statement (a mixin including itself through its content block) shares and resets it
                     let f = self.push(Kind::Flow, cur);
-                    for _ in 0..*n {
+                    let key = s as *const S;
+                    self.wcount.insert(key, *n as i64);
+                    while self.wcount.get(&key).copied().unwrap_or(0) > 0 {
+                        *self.wcount.get_mut(&key).unwrap() -= 1;
                         self.run(body, f, content);
+                        if self.steps > 20_000 {
+                            return;
+                        }
                     }
                 }
                 S::Include { m, content: blk } => {
@@ -265,7 +275,7 @@ impl<'a> Interp<'a> {
 }
 
 pub fn model(c: &Case) -> Vec<String> {
-    let mut it = Interp { c, frames: vec![Frame { kind: Kind::Global, parent: None, vars: HashMap::new() }], out: vec![], serials: number(c), steps: 0 };
+    let mut it = Interp { c, frames: vec![Frame { kind: Kind::Global, parent: None, vars: HashMap::new() }], out: vec![], serials: number(c), steps: 0, wcount: HashMap::new() };
     let main: &[S] = &c.main;
     it.run(main, 0, None);
     it.out
